@@ -40,7 +40,8 @@ CONFIG = {
     'must_sig': ['site:pyModelChecking.CTL.model_checking:*',
                  'site:pyModelChecking.LTL.model_checking:*',
                  'site:pyModelChecking.kripke:*',
-                 'shape:multi_root', 'shape:nontrivial+trivial'],
+                 'shape:multi_root', 'shape:nontrivial+trivial',
+                 'shape:long_path', 'shape:long_ring', 'shape:long_lollipop'],
     'rule': ('cases = (edge set, node insertion order, node naming, '
              'construction style); enumerated: every labelled digraph on <=4 '
              'nodes under 2 (quick) / all (thorough) insertion orders; '
@@ -84,7 +85,18 @@ def _wrap(orig):
 def judge(nodes, rows, comps, site):
     n = len(nodes)
     idx = {v: i for i, v in enumerate(nodes)}
-    exp = refgraph.scc_partition(rows)
+    if n <= 64:
+        exp = refgraph.scc_partition(rows)
+    else:
+        # large graphs: own iterative Tarjan (Warshall would be cubic)
+        from ..refsem import _tarjan
+        succ = [[j for j in range(n) if rows[i] >> j & 1] for i in range(n)]
+        exp = []
+        for comp in _tarjan(n, lambda i: succ[i]):
+            m = 0
+            for x in comp:
+                m |= 1 << x
+            exp.append(m)
     seen = 0
     obs = []
     bad = None
@@ -114,7 +126,7 @@ def judge(nodes, rows, comps, site):
     LOG.sig['n=%d,sccs=%d' % (min(n, 13), min(len(exp), 13))] += 1
     # more than one DFS root is needed iff node 0 (first in iteration order)
     # does not reach everything
-    if n and refgraph.reachable_from(rows, 1) != (1 << n) - 1:
+    if n and n <= 64 and refgraph.reachable_from(rows, 1) != (1 << n) - 1:
         LOG.sig['shape:multi_root'] += 1
     if bad:
         LOG.violation('c12.compute_SCCs', PROP,
@@ -216,6 +228,33 @@ def run(ctx):
             if k % 1000 == 0:
                 LOG.sample({'rows': list(rows), 'order': order,
                             'namer': nmr, 'style': st})
+    # long chains, rings and lollipops: thousands of nodes on one DFS branch
+    big = [('path', 1500), ('ring', 2200), ('lollipop', 3000),
+           ('two_rings', 2600)]
+    for bi, (kind, nbig) in enumerate(big):
+        if not ctx.mine(bi):
+            continue
+        LOG.sig['shape:long_' + kind] += 1
+        rows = []
+        for i in range(nbig):
+            if kind == 'path':
+                rows.append(1 << (i + 1) if i + 1 < nbig else 0)
+            elif kind == 'ring':
+                rows.append(1 << ((i + 1) % nbig))
+            elif kind == 'lollipop':
+                # a path into a ring
+                half = nbig // 2
+                rows.append(1 << (i + 1) if i + 1 < nbig else 1 << half)
+            else:
+                half = nbig // 2
+                nxt = (i + 1) % half if i < half else \
+                    half + ((i + 1 - half) % (nbig - half))
+                m = 1 << nxt
+                if i == 0:
+                    m |= 1 << half           # bridge ring 1 -> ring 2
+                rows.append(m)
+        drive(tuple(rows), list(range(nbig)), 'int', 0)
+        drive(tuple(rows), list(range(nbig - 1, -1, -1)), 'str', 2)
     internal_uses(ctx, r)
     LOG.nontrivial_extra += LOG.counters.pop('nontrivial_enum', 0)
     ctx.extra['reach'] = probes.result()
